@@ -15,12 +15,19 @@ var c19FaultKinds = []string{
 	"header-missing-trailing-at", "header-text-after-atat", "header-plain-text-first-line",
 	"meta-unknown-type", "meta-duplicate-same-line", "meta-duplicate-later-line", "meta-duplicate-later-group",
 	"meta-missing-var", "meta-missing-type", "meta-missing-name-after-comma", "meta-non-identifier", "meta-trailing-junk",
+	"meta-cut-short-at-end-of-section",
 }
 
 // c19Patch builds a valid multi-change patch and injects one fault; it returns the text and
 // the 1-based line and byte column of the offending token (cols lists acceptable columns).
 func c19Patch(r *rand.Rand, kind string) (text string, line int, cols []int, changeIdx int, shape string, also []string) {
+	return c19PatchAlt(r, kind, nil)
+}
+
+// c19PatchAlt: alt, when not nil, receives further acceptable "line:col" spellings of the fault's position.
+func c19PatchAlt(r *rand.Rand, kind string, alt *[]string) (text string, line int, cols []int, changeIdx int, shape string, also []string) {
 	indented := false
+	atClose := false // the offending token is the "@@" that closes the section
 	defer func() {
 		if indented {
 			shape += "+indented-declaration"
@@ -169,10 +176,16 @@ func c19Patch(r *rand.Rand, kind string) (text string, line int, cols []int, cha
 			case "meta-trailing-junk":
 				fl = "var q5 expression junk"
 				col = len("var q5 expression ") + 1
+			case "meta-cut-short-at-end-of-section":
+				// the last declaration of the section stops in the middle: what the parser runs into is the "@@" that
+				// closes the section (the end of the cut line is accepted as well)
+				fl = []string{"var é6,", "var", "var é7, q7,"}[r.Intn(3)]
+				col = len(fl) + 1
+				atClose = true
 			}
 			// place the faulty line at a random position among the declarations, with noise
 			pos := len(metaLines)
-			if kind != "meta-duplicate-later-line" && kind != "meta-duplicate-later-group" {
+			if kind != "meta-duplicate-later-line" && kind != "meta-duplicate-later-group" && !atClose {
 				pos = r.Intn(len(metaLines) + 1)
 			}
 			metaLines = append(metaLines[:pos], append([]string{fl}, metaLines[pos:]...)...)
@@ -214,6 +227,17 @@ func c19Patch(r *rand.Rand, kind string) (text string, line int, cols []int, cha
 				lines = append(lines, ml)
 			}
 		}
+		if isFault && atClose {
+			if alt != nil {
+				for _, c := range cols {
+					*alt = append(*alt, fmt.Sprintf("%d:%d", line, c))
+				}
+			}
+			if r.Intn(2) == 0 {
+				lines = append(lines, "# before the end of the section")
+			}
+			line, cols = len(lines)+1, []int{1}
+		}
 		lines = append(lines, "@@")
 		arg := "1"
 		if used["x"] {
@@ -233,8 +257,8 @@ func init() {
 	core.Register(&core.Prop{
 		ID:    "C19",
 		Level: "exploration",
-		Rule: "cases: valid patches of 1-5 changes with 0-6 '#'/blank lines before and inside sections, tabs and multi-byte characters before the fault, into which one fault of 16 kinds is injected (bad change name: first / inner / multi-byte / space; " +
-			"text where a header is expected: '@foo', '@@ x', plain text; unknown metavariable type; duplicate metavariable on the same line / a later line / a later group; missing 'var'; missing type; missing name after a comma; non-identifier token; trailing junk) " +
+		Rule: "cases: valid patches of 1-5 changes with 0-6 '#'/blank lines before and inside sections, tabs and multi-byte characters before the fault, into which one fault of 17 kinds is injected (bad change name: first / inner / multi-byte / space; " +
+			"text where a header is expected: '@foo', '@@ x', plain text; unknown metavariable type; duplicate metavariable on the same line / a later line / a later group; missing 'var'; missing type; missing name after a comma; non-identifier token; trailing junk; a declaration cut short at the end of the section, where the offending token is the closing '@@') " +
 			"at every change index, white space of several kinds around a bad name, and for faults found at compile time a second such fault in another change (both positions must be reported); delivered by -p (two path spellings), stdin and patch.Parse. Oracle: the injector knows the byte offset of the token it corrupted; a diagnostic must contain '<patch name>:<line>:<byte column>', exit != 0, at least one diagnostic names the patch, no target file changes. " +
 			"non-trivial = >=1 line precedes the faulty section; distinct = (fault kind, change index, preceding-lines shape, delivery).",
 		Assumptions: []string{"columns are byte columns as go/token counts them; for 'missing type' the offending token is the end of the line (the inserted ';')"},
@@ -253,12 +277,16 @@ func runC19(ctx *core.Ctx, idx int) *core.Result {
 	res := &core.Result{}
 	r := ctx.Rand("c19", idx)
 	kind := c19FaultKinds[idx%len(c19FaultKinds)]
-	text, line, cols, at, shape, also := c19Patch(r, kind)
+	var altPos []string
+	text, line, cols, at, shape, also := c19PatchAlt(r, kind, &altPos)
 	target := "package p\n\nfunc f() { foo0(1); foo1(1); foo2(1); foo3(1); foo4(1) }\n"
 	wantPos := func(name string) []string {
 		var out []string
 		for _, c := range cols {
 			out = append(out, fmt.Sprintf("%s:%d:%d", name, line, c))
+		}
+		for _, a := range altPos {
+			out = append(out, name+":"+a)
 		}
 		return out
 	}
